@@ -71,9 +71,11 @@ def evaluate(prop, cases, workdir, tag):
         if real is None:
             if hasattr(prop, "verdict_expr_noout"):
                 defs = "Definition ir_%d : module := %s." % (c["id"], r["ir"])
-                items.append((c["id"], defs, prop.verdict_expr_noout(c, r, "ir_%d" % c["id"])))
-                rec["noout"] = True
-                continue
+                expr = prop.verdict_expr_noout(c, r, "ir_%d" % c["id"])
+                if expr is not None:        # None: this case has no other observation to decide (b) with
+                    items.append((c["id"], defs, expr))
+                    rec["noout"] = True
+                    continue
             rec["skip"] = "extract_error: %s" % r.get("extract_err")
             continue
         defs = "Definition ir_%d : module := %s.\nDefinition real_%d : result out := %s." % (
